@@ -93,6 +93,10 @@ def body_messages(body: str, rid: Any) -> List[dict]:
     N1 = {**j, "method": "notifications/message", "params": {"data": "one"}}
     N2 = {**j, "method": "notifications/progress", "params": {"progressToken": "t", "progress": 1}}
     W = {**j, "id": "someone-else", "result": {"w": 1}}
+    if body.startswith("burst-"):
+        # N notifications followed by the response, all in ONE body: more than the read stream buffers
+        n = int(body.split("-")[1])
+        return [{**j, "method": "notifications/message", "params": {"i": i}} for i in range(n)] + [R]
     return {"resp": [R], "err": [E], "notifs+resp": [N1, N2, R], "wrong-id": [W], "batch": [N1, R]}[body]
 
 
@@ -209,7 +213,7 @@ def render(b: Dict[str, Any], rid: Any) -> Tuple[bytes, Optional[str]]:
     if body == "nonutf8":
         return b'\xff\xfe{"jsonrpc":"2.0"', ctype
     msgs = body_messages(body, rid)
-    if body == "batch":
+    if body == "batch" or body.startswith("burst-"):
         return json.dumps(msgs, ensure_ascii=False).encode("utf-8"), ctype
     return json.dumps(msgs[0], ensure_ascii=False).encode("utf-8"), ctype
 
@@ -314,12 +318,19 @@ def run_one(ctl: explorer.Ctl, cfg: Dict[str, Any]) -> Dict[str, Any]:
                         import asyncio as _a
                         await _a.sleep(6.0)
                         await q.settle()
+                    # the reader takes what is there only AFTER the POST was processed as far as it can go, then keeps
+                    # draining and settling until nothing more comes (a body may hold more than the stream buffers)
                     got = []
-                    try:
-                        while True:
-                            got.append(read.receive_nowait())
-                    except (anyio.WouldBlock, anyio.EndOfStream):
-                        pass
+                    for _round in range(16):
+                        n0 = len(got)
+                        try:
+                            while True:
+                                got.append(read.receive_nowait())
+                        except (anyio.WouldBlock, anyio.EndOfStream):
+                            pass
+                        if len(got) == n0 and _round:
+                            break
+                        await q.settle()
                     got_per_step.append(got)
 
     status, val = loop.run_main(main())
@@ -526,6 +537,151 @@ def run_pipelined(ctl: explorer.Ctl, cfg: Dict[str, Any]) -> Dict[str, Any]:
     return {"outcome": "/".join(summary), "steps": [[_tag(_beh(x))["body"], x.get("delay")] for x in steps], "violations": viol}
 
 
+# ---------------------------------------------------------------------------
+# two connections built from ONE parameters object (alive together / one after the other / control: own objects)
+# ---------------------------------------------------------------------------
+RUN_TWO = "vf.checks.c11:run_two_connections"
+TWO_MODES = ["alive-together:one-parameters-object", "one-after-the-other:one-parameters-object",
+             "alive-together:own-parameters-objects"]
+TWO_HEADERS: List[Optional[Dict[str, str]]] = [None, {}, {"X-Client": "vf", "Authorization": "Bearer t0k"}]
+# session ids the server issues on the 1st / 2nd request of a connection (the 3rd request only observes)
+TWO_ISSUE = [[None, None], ["1", None], [None, "2"], ["1", "2"]]
+TWO_REQS = 3
+
+
+def run_two_connections(ctl: explorer.Ctl, cfg: Dict[str, Any]) -> Dict[str, Any]:
+    from contextlib import AsyncExitStack
+
+    from chuk_mcp.protocol.messages.json_rpc_message import JSONRPCRequest
+    from chuk_mcp.transports.http.http_client import http_client
+    from chuk_mcp.transports.http.parameters import StreamableHTTPParameters
+
+    mode = TWO_MODES[cfg["mode"]]
+    hdrs = TWO_HEADERS[cfg["headers"]]
+    init_sid = cfg.get("init")          # parameters.session_id (reconnect to a known session) or None
+    issue = {"A": TWO_ISSUE[cfg["a"]], "B": TWO_ISSUE[cfg["b"]]}
+    loop = new_loop(horizon=600)
+    q = seams.Quiescence(loop)
+    seen: Dict[str, List[Any]] = {"A": [], "B": []}      # per connection: [(request index, headers)]
+    got: Dict[str, List[Any]] = {"A": [], "B": []}
+    order: List[str] = []
+    info: Dict[str, Any] = {}
+
+    def sid(conn, k):
+        tag = issue[conn][k] if k < 2 else None
+        return None if tag is None else f"S-{conn}{tag}"
+
+    def handler(rec):
+        sent = rec.json()
+        rid = sent.get("id") if isinstance(sent, dict) else None
+        if not (isinstance(rid, str) and len(rid) == 2 and rid[0] in "AB"):
+            return httpx.Response(500, content=b"unknown request")
+        conn, k = rid[0], int(rid[1])
+        seen[conn].append((k, rec.headers))
+        headers = {"content-type": "application/json"}
+        if sid(conn, k):
+            headers["mcp-session-id"] = sid(conn, k)
+        body = {"jsonrpc": "2.0", "id": rid, "result": {"for": rid}}
+        return httpx.Response(200, headers=headers, content=json.dumps(body).encode())
+
+    def make_params():
+        return StreamableHTTPParameters(url=URL, timeout=5.0, headers=None if hdrs is None else dict(hdrs),
+                                        session_id=init_sid)
+
+    async def send(conn, k, streams):
+        read, write = streams[conn]
+        await write.send(JSONRPCRequest(id=f"{conn}{k}", method="tools/list", params={"n": k}))
+        await q.settle()
+        try:
+            while True:
+                got[conn].append(dump_msg(read.receive_nowait()))
+        except (anyio.WouldBlock, anyio.EndOfStream):
+            pass
+
+    async def main():
+        with patched_httpx(handler) as px:
+            info["px"] = px
+            shared = make_params()
+            pa = shared
+            pb = shared if "one-parameters-object" in mode else make_params()
+            info["params"] = [pa, pb]
+            info["headers_before"] = [json.dumps(p.headers, sort_keys=True) for p in (pa, pb)]
+            if mode.startswith("alive-together"):
+                async with http_client(pa) as sa:
+                    async with http_client(pb) as sb:
+                        streams = {"A": sa, "B": sb}
+                        nxt = {"A": 0, "B": 0}
+                        while nxt["A"] < TWO_REQS or nxt["B"] < TWO_REQS:
+                            menu = [c for c in "AB" if nxt[c] < TWO_REQS]
+                            c = menu[ctl.choose(len(menu), "whose-request-next")] if len(menu) > 1 else menu[0]
+                            order.append(c)
+                            await send(c, nxt[c], streams)
+                            nxt[c] += 1
+            else:
+                for c, p in (("A", pa), ("B", pb)):
+                    async with http_client(p) as st:
+                        for k in range(TWO_REQS):
+                            order.append(c)
+                            await send(c, k, {c: st})
+            info["headers_after"] = [json.dumps(p.headers, sort_keys=True) for p in (pa, pb)]
+            info["session_id_after"] = [p.session_id for p in (pa, pb)]
+
+    status, val = loop.run_main(main())
+    errors = loop.collect_errors()
+    loop.abandon()
+    viol: List[dict] = []
+    ctx = {"mode": mode, "configured_headers": "none" if hdrs is None else ("empty" if not hdrs else "some"),
+           "initial_session_id": init_sid is not None}
+
+    def bad(cls, msg, **extra):
+        viol.append({"sig": {"class": cls, **ctx, **extra},
+                     "msg": f"{mode}, parameters.headers={hdrs!r} session_id={init_sid!r}, server issues A:{issue['A']} "
+                            f"B:{issue['B']}, requests sent in order {order}: {msg}"})
+
+    if status != "ok":
+        bad("did-not-finish", f"{status} {core.clean_repr(val)}")
+        return {"outcome": status, "violations": viol}
+    if not info["px"].requests:
+        raise core.HarnessError("seam missing: no request reached the scripted httpx transport")
+    heads = []
+    for c in "AB":
+        # what this connection would see alone: the most recent id issued ON THIS connection (the configured one before)
+        cur = init_sid
+        if [k for k, _h in seen[c]] != list(range(TWO_REQS)):
+            bad("requests-not-posted-in-order", f"connection {c} POSTed requests {[k for k, _h in seen[c]]}", connection=c)
+            continue
+        for k, h in seen[c]:
+            have = h.get("mcp-session-id")
+            heads.append(have)
+            if have != cur:
+                other = "AB".replace(c, "")
+                bad("session-header-of-another-connection" if have is not None and have.startswith(f"S-{other}")
+                    else "session-header", f"request {c}{k} carried Mcp-Session-Id {have!r}; the most recent id issued on "
+                    f"connection {c} is {cur!r}", connection=c)
+            for name, value in (hdrs or {}).items():
+                if h.get(name.lower()) != value:
+                    bad("configured-header-missing", f"request {c}{k} carried {name}={h.get(name.lower())!r}", connection=c)
+            if sid(c, k):
+                cur = sid(c, k)
+        want = [{"jsonrpc": "2.0", "id": f"{c}{k}", "result": {"for": f"{c}{k}"}} for k in range(TWO_REQS)]
+        if not (len(got[c]) == len(want) and all(strict_eq(a, b) for a, b in zip(got[c], want))):
+            bad("wrong-messages-on-connection", f"connection {c} read {got[c]}, alone it reads {want}", connection=c)
+    if info["headers_after"] != info["headers_before"]:
+        bad("parameters-object-modified", f"parameters.headers was {info['headers_before']} before the connections and is "
+                                          f"{info['headers_after']} afterwards")
+    if info["session_id_after"] != [init_sid, init_sid]:
+        bad("parameters-object-modified", f"parameters.session_id is now {info['session_id_after']}", member="session_id")
+    if errors:
+        bad("loop-error", f"{errors[:2]}")
+    return {"outcome": "/".join(str(x) for x in heads), "order": order, "violations": viol}
+
+
+def two_connection_configs() -> List[Dict[str, Any]]:
+    return [{"mode": m, "headers": h, "init": i, "a": a, "b": b}
+            for m in range(len(TWO_MODES)) for h in range(len(TWO_HEADERS)) for i in (None, "S-P0")
+            for a in range(len(TWO_ISSUE)) for b in range(len(TWO_ISSUE))]
+
+
 PIPE_BEHS = [
     {"status": 200, "ctype": "json", "body": "resp"},
     {"status": 200, "ctype": "sse", "body": "empty"},
@@ -598,6 +754,14 @@ def configs_for(tier: str):
             steps.append({"b": OK_B, "req": "id-a", "session": None})
             g.append({"steps": steps})
     parts["session-sequences-len<=4"] = g
+    g = []
+    for n in (99, 100, 101, 150):
+        for rk in ("id-a", "id-7", "id-0", "note"):
+            for b in ({"status": 200, "ctype": "json"}, {"status": 200, "ctype": "sse", "enc": "canonical"},
+                      {"status": 200, "ctype": "sse", "enc": "crlf"}, {"status": 202, "ctype": "sse", "enc": "canonical"}):
+                g.append({"steps": [{"b": dict(b, body=f"burst-{n}"), "req": rk, "session": None},
+                                    {"b": OK_B, "req": "id-a", "session": None}]})
+    parts["burst-bodies-drained-after-the-post"] = g
     return parts
 
 
@@ -607,7 +771,8 @@ def run(tier: str, only=None) -> core.Result:
         if only and name not in only:
             continue
         out = explorer.explore(RUN, cfgs, fidelity=True)
-        sched.absorb(res, name, RUN, out, cfgs)
+        # (every burst body has the same right outcome: all its messages)
+        sched.absorb(res, name, RUN, out, cfgs, min_outcomes=1 if name.startswith("burst-") else 2)
         sched.debug_pass(res, name, RUN, cfgs, every=7)
     pcfgs = []
     for k in (2, 3):
@@ -620,6 +785,11 @@ def run(tier: str, only=None) -> core.Result:
     if not only or "pipelined" in only:
         out = explorer.explore(RUN_PIPE, pcfgs, fidelity=True)
         sched.absorb(res, "pipelined-requests-with-delayed-answers", RUN_PIPE, out, pcfgs)
+    if not only or "two-connections-one-parameters-object" in only:
+        tcfgs = two_connection_configs()
+        out = explorer.explore(RUN_TWO, tcfgs, fidelity=True)
+        sched.absorb(res, "two-connections-one-parameters-object", RUN_TWO, out, tcfgs)
+        sched.debug_pass(res, "two-connections-one-parameters-object", RUN_TWO, tcfgs, every=9)
     if not only or "conformance" in only:
         from . import c11_conf
 
@@ -632,7 +802,13 @@ def run(tier: str, only=None) -> core.Result:
         "non-JSON/non-UTF-8 x 8 SSE encodings; 204; 301 followed; 302 without Location; 400/401/404/500/503 x 3 bodies) x "
         "request kinds {string id, id 0, integer id, notification} x session header issued or not, each followed by a plain "
         "request; all sequences of <=3 (thorough 4) over 22 representative behaviours; all session sequences of <=4 over "
-        "{issue S1, issue S2, no header, 4xx, exception}; distinct = distinct observation digests"
+        "{issue S1, issue S2, no header, 4xx, exception}; bodies of 99/100/101/150 notifications + the response (JSON array, SSE "
+        "with LF / CRLF, status 200 / 202) drained only after the POST was processed; two connections of 3 requests each built from "
+        "ONE StreamableHTTPParameters object (alive together with every interleaving of their requests, one after the other) "
+        "and from own objects (control) x parameters.headers None / {} / two headers x parameters.session_id None / given x the "
+        "server issuing a new session id on the 1st and/or 2nd request of each connection: every request carries the most recent "
+        "id issued on ITS connection, each connection reads what it reads alone, the parameters object is left as it was; "
+        "distinct = distinct observation digests"
     )
     res.assumptions = [
         "for a content type other than JSON/event-stream the statement does not say how the body is read: its messages or a synthesised terminal are both accepted",
